@@ -123,3 +123,29 @@ def obligations_structure(pid):
     return [Ob("%s.S.lexer-alternatives-are-whole-named-groups" % pid, "discharged" if ok else "refuted", ["evaluation"], 0.0, 1,
                None if ok else {"model": None, "detail": "combined pattern is not an alternation of whole named groups"},
                kind="static")]
+
+
+def obligations_no_nested_repeat(pid):
+    """C02 (time): no lexer rule nests an unbounded repetition inside another one -- the shape (X+|Y)* that makes a
+    backtracking engine exponential on non-matching input.  (Time inside `re` is otherwise trusted.)"""
+    obs = []
+
+    def has_unbounded(n):
+        if n.kind == "rep" and n.hi is None:
+            return True
+        return any(has_unbounded(c) for c in (getattr(n, "items", None) or []) + (getattr(n, "alts", None) or []) +
+                   ([n.node] if hasattr(n, "node") else []))
+
+    def nested(n):
+        if n.kind == "rep" and n.hi is None and has_unbounded(n.node):
+            return True
+        return any(nested(c) for c in (getattr(n, "items", None) or []) + (getattr(n, "alts", None) or []) +
+                   ([n.node] if hasattr(n, "node") else []))
+
+    for name, pat, root, info in rules():
+        ok = not nested(root)
+        obs.append(Ob("%s.L3.no-nested-unbounded-repetition.%s" % (pid, name), "discharged" if ok else "refuted", ["regex-structure"], 0.0, 1,
+                      None if ok else {"model": {"rule": name, "pattern": pat.decode("latin-1")},
+                                       "detail": "rule %r nests an unbounded repetition inside another: exponential backtracking on "
+                                                 "a long non-matching input such as an unterminated string" % pat}, kind="static"))
+    return obs
